@@ -54,6 +54,13 @@ def check(ctx):
         if cls:
             C.violation(ctx, "pool-shutdown-" + cls[0], {"what": "Put at the moment of Shutdown: " + cls[0],
                                                          "test": "TestVerifPutShutdown", "env": env, "report": cls[1]})
+    if not any(v["kind"].startswith("pool-shutdown") for v in ctx.violations):
+        env = {"VERIF_CLEANUP_ROUNDS": str(800 if ctx.thorough() else 150)}
+        rc, out = c12.run_workload(ctx, binary, "TestVerifCleanupShutdown", env)
+        cls = c12.classify(rc, out)
+        if cls:
+            C.violation(ctx, "pool-shutdown-" + cls[0], {"what": "the janitor pass overlapping Shutdown: " + cls[0],
+                                                         "test": "TestVerifCleanupShutdown", "env": env, "report": cls[1]})
     # the process-level sequence (shutdownGracefully), with the drain finishing and with the drain
     # running into the shutdown timeout
     overlay = C.make_overlay(ctx, clock_pkgs=[], harness_pkgs=["cmd/helios"], hmap={"cmd/helios": "helios"})
